@@ -26,6 +26,10 @@ ERRS = {'ValueError': '.valueError', 'TypeError': '.typeError', 'XYZError': '.xy
         'KeyError': '.keyError', 'IndexError': '.indexError', 'FileNotFoundError': '.fileNotFound'}
 
 
+# calls without effects that may appear in an expression bound to a local and looked through
+PURE_CALLS = {'os.path.join', 'BTCH_NM.format', 'RSLT_NM.format', 'str', 'len', 'int', 'min', 'max', 'abs', 'tuple', 'list'}
+
+
 def is_none(e):
     return isinstance(e, ast.Constant) and e.value is None
 
@@ -33,8 +37,18 @@ def is_none(e):
 class Tr2(Tr):
     """expression translator that also knows `onum` / `obool` / `list` typed names"""
 
+    def resolve(self, e):
+        """the syntax a local name stands for, when it was bound to an expression outside the sub-language"""
+        hit = self.lookup(e)
+        while hit is not None and hit[1] == 'ast':
+            e = hit[0]
+            hit = self.lookup(e)
+        return e
+
     def expr(self, e):
         hit = self.lookup(e)
+        if hit is not None and hit[1] == 'ast':
+            return self.expr(hit[0])            # inline the defining expression (it is pure: no calls with effects are bound)
         if hit is not None:
             return hit
         if is_none(e):
@@ -324,11 +338,24 @@ class FnTr:
                     return '\n'.join(lines) + '\n' + self.block(rest, e3, ind2)
                 return self.unwrapping(vals, env, ind, k)
             key = ast.unparse(tgt)
-
             def k(env2, ind2):
                 t, ty = self.tr(env2).expr(s.value)
                 e3, ln = self.assign(env, key, t, ty)
                 return f'{ind2}{ln}\n' + self.block(rest, e3, ind2)
+            if isinstance(tgt, ast.Name) and key not in self.spec.env:
+                # a local bound to something outside the sub-language (a path, a formatted name): remember the syntax;
+                # it is inlined where the name is used, and handlers can look through it
+                try:
+                    probe = FnTr(self.spec, self.trees, self.find)
+                    probe.unwrapping([s.value], env, ind, lambda e2, i2: probe.tr(e2).expr(s.value)[0], passthrough=True)
+                except Untranslatable:
+                    reads = {n.id for n in ast.walk(s.value) if isinstance(n, ast.Name)}
+                    writes = {ast.unparse(t) for st in rest for n in ast.walk(st) if isinstance(n, (ast.Assign, ast.AugAssign))
+                              for t in (n.targets if isinstance(n, ast.Assign) else [n.target])}
+                    if not any(isinstance(n, ast.Call) and ast.unparse(n.func) not in PURE_CALLS for n in ast.walk(s.value)) \
+                            and not (reads & writes):
+                        e3 = dict(env); e3[key] = (s.value, 'ast')
+                        return self.block(rest, e3, ind)
             return self.unwrapping([s.value], env, ind, k, passthrough=True)
         if isinstance(s, ast.AugAssign):
             key = ast.unparse(s.target)
